@@ -188,8 +188,19 @@ CONTEXTS = [  # (p, q, eta)
     (1.0, 1.0, 0.25), (None, 0.3, 1.0), (0.4, None, 1.0), (0.0, 0.0, 7.0), (0.5, 0.5, 1e-3),
 ]
 
+# probabilities across magnitudes (still strictly inside (0, 1): every Pauli error / flip stays in the support, no
+# edge may be pruned): denormal, tiny, one ulp below 1
+MAGNITUDE_CONTEXTS = [
+    (1e-10, 0.1, 3.0), (1e-12, 1e-12, None), (0.2, 1e-10, 1.0), (0.2, 1 - 1e-12, 2.0), (5e-324, 0.5, None),
+    (1e-300, 1e-300, 0.5), (1e-9, 1e-9, None), (0.3, 1 - 2 ** -53, None), (1e-15, 0.0, 4.0), (1e-7, 1.0, None),
+    (1 - 2 ** -53, 0.2, 1.5), (1e-10, 1e-10, 1e-6), (0.1, 0.1, 1e12),
+]
+
 # contexts a decoder can be called with inside the property's domain (p in [0,1), q in [0,1], both given)
-GRAPH_CONTEXTS = [c for c in CONTEXTS if c[0] is not None and c[1] is not None and c[0] != 1]
+GRAPH_CONTEXTS = [c for c in CONTEXTS if c[0] is not None and c[1] is not None and c[0] != 1] + MAGNITUDE_CONTEXTS
+
+
+ALL_CONTEXTS = CONTEXTS + MAGNITUDE_CONTEXTS
 
 
 def function_level(ctx, fams):
@@ -210,7 +221,7 @@ def function_level(ctx, fams):
                 if len(pairs) > budget:
                     pairs = ctx.rng.sample(pairs, budget)
                 for (a, b) in pairs:
-                    p, q, eta = CONTEXTS[ctx.rng.randrange(len(CONTEXTS))]
+                    p, q, eta = ALL_CONTEXTS[ctx.rng.randrange(len(ALL_CONTEXTS))]
                     try:
                         with core.TimeLimit(TL):
                             exp = expected_reply(D, code, T, a, b, p, q, eta)
@@ -291,6 +302,12 @@ def graph_level(ctx, fams):
                                          key=D.__name__ + '.' + gname + ':raises')
                         continue
                     cw = ctx_w(p, q, eta)
+                    # the key SET is exactly the model's edge set for the flags derived from the same arguments
+                    from qv import c02_smwpm
+                    ctx.case('smwpm {}edges {} {} {} {}'.format('' if fam == 'planar' else 't', c02_smwpm.flags_of(eta, p, q),
+                                                               size[0], size[1], core.mat(synd)),
+                             c02_smwpm.edges_w([k for gr in graphs for k in gr.keys()]), nontrivial=True,
+                             meta=dict(meta, part='graph-keys'))
                     for gr in graphs:
                         for (a, b), w in gr.items():
                             twin = (a[0] == b[0] and a[1] != b[1])
